@@ -1,5 +1,6 @@
 import MesonModel.Fmt.Tree
 import MesonModel.Fmt.Layout
+import MesonModel.Fmt.SortKey
 import MesonModel.Generated.FmtTables
 import Driver.Proto
 /- driver commands of area `fmt` (C16): translation-validation checker and the modelled rewriting decisions -/
@@ -122,6 +123,12 @@ end Lay
 def handle (cmd : String) (fs : List String) : String :=
   match cmd, fs with
   | "layout", [cfg, node] => Lay.run cfg node
+  | "pkey", [a, b] =>
+    -- `pathname_sort_key(a) < pathname_sort_key(b)`: lt / ge / ERR:TypeError
+    match MesonModel.Fmt.SortKey.pathLt? (decodeStr a) (decodeStr b) with
+    | some true => "lt"
+    | some false => "ge"
+    | none => "ERR:TypeError"
   | "check", [so, a, b] =>
     match readTree a, readTree b with
     | some ta, some tb => s!"S{boolStr (sameProgram (flagBool so) ta tb)}C{boolStr (sameComments ta tb)}"
